@@ -38,13 +38,13 @@ theorem usesBoundAll_nil_of_isNil (ctx : List String) (ch : Nodes) (h : ch.isNil
 def extFlag (ctx : List String) (kind : Kind) (names : List String) (ch : Nodes) : Bool :=
   match kind with
   | .lambda => false
-  | .nameLoad => if names.any (fun n => ctx.contains n) then !ch.isNil && (classifyAll ctx ch).1 else true
+  | .nameLoad => if names.any (fun n => ctx.contains n) then !ch.isNil && (classifyAll ctx ch).all else true
   | .const => true
   | .starred => true
-  | .listD => (classifyAll ctx ch).1
-  | .dictD => (classifyAll ctx ch).1
-  | .slice => ch.isNil || (classifyAll ctx ch).1
-  | _ => !ch.isNil && (classifyAll ctx ch).1
+  | .listD => (classifyAll ctx ch).all
+  | .dictD => (classifyAll ctx ch).all
+  | .slice => ch.isNil || (classifyAll ctx ch).all
+  | _ => !ch.isNil && (classifyAll ctx ch).all
 
 theorem classify_ext (ctx : List String) (kind : Kind) (lab : Nat) (names : List String) (ch : Nodes) :
     (classify ctx (.mk kind lab names ch)).ext = extFlag ctx kind names ch := by
@@ -78,7 +78,7 @@ theorem ext_sound (ctx : List String) : (n : Node) → WF n = true → (classify
     case keyword => exact ih (by simpa using hw) (by simp at he; exact he.2)
     case tuple => exact ih (by simpa using hw) (by simp at he; exact he.2)
     case other => exact ih (by simpa using hw) (by simp at he; exact he.2)
-theorem extAll_sound (ctx : List String) : (ns : Nodes) → WFAll ns = true → (classifyAll ctx ns).1 = true → usesBoundAll ctx ns = false
+theorem extAll_sound (ctx : List String) : (ns : Nodes) → WFAll ns = true → (classifyAll ctx ns).all = true → usesBoundAll ctx ns = false
   | .nil, _, _ => by simp [usesBoundAll]
   | .cons n t, hw, he => by
     simp only [WFAll, Bool.and_eq_true] at hw
